@@ -270,6 +270,115 @@ def run_case(c):
     return Out(labels, attempted_change)
 
 
+# ---------------------------------------------------------------- PIN change on reconnection
+
+def reconnect_cases(tier, seed):
+    out = []
+    for plat, file0, reaction, ff in itertools.product(
+            ["Ledger", "SGX"], ["absent", "present-forced"], REACTIONS, FILE_FAULTS):
+        out.append({"platform": plat, "file0": file0, "reaction": reaction, "file_fault": ff})
+    return out
+
+
+def run_reconnect(c):
+    """The manager starts while the device is already in the signer (so a pending PIN change is
+    not carried out), serves, loses the link, and finds the device in the bootloader when it
+    reconnects: the PIN change happens inside a client request. All invariants still apply and
+    the manager must stop."""
+    import json as _json
+    w = mw.default_world()
+    w.pin = DEFAULT
+    w.retries = 3
+    w.post_mode = SIGNER
+    w.mode = SIGNER
+    w.unlocked = True
+    pf = os.path.join(tmpdir(), "pin-reconnect.txt")
+    if os.path.exists(pf):
+        os.unlink(pf)
+    if c["file0"] == "present-forced":
+        with real_open(pf, "wb") as f:
+            f.write(DEFAULT)
+    w.newpin_behaviour = c["reaction"]
+    ff = c["file_fault"]
+
+    class F:
+        def __init__(s, f):
+            s.f = f
+
+        def __enter__(s):
+            return s
+
+        def __exit__(s, *a):
+            s.f.close()
+            return False
+
+        def write(s, b):
+            if ff == "write":
+                raise OSError(28, "No space left on device")
+            return s.f.write(b)
+
+        def read(s, *a):
+            return s.f.read(*a)
+
+    def fopen(path, mode="r", *a, **k):
+        if "w" in mode and ff == "open":
+            raise OSError(30, "Read-only file system")
+        return F(real_open(path, mode, *a, **k))
+    lpin.open = fopen
+    mw.install(w)
+    Platform.set(Platform.LEDGER if c["platform"] == "Ledger" else Platform.SGX)
+    labels = ["reconnect", "platform:" + c["platform"]]
+    try:
+        pin = FileBasedPin(pf, DEFAULT, c["file0"] == "present-forced")
+        dongle = hd.HSM2Dongle(False) if c["platform"] == "Ledger" else \
+            HSM2DongleSGX("h", 1, False)
+        p = HSM2ProtocolLedger(pin, dongle)
+        p.initialize_device()                      # device in signer: serves, no PIN used
+        h = mw.handler(p)
+        file_before = read_file(pf)
+        dev_before = w.pin
+        w.faults[w.nex] = "read"
+        out, exc = mw.serve_line(h, b'{"command":"blockchainState","version":5}')
+        if exc is not None or mw.parse_reply(out) is None:
+            raise Violation("reconnect-setup", "%r %r" % (out[:80], exc))
+        w.mode = BOOT                              # the device was power-cycled meanwhile
+        w.unlocked = False
+        mark = len(w.log)
+        out, exc = mw.serve_line(h, b'{"command":"blockchainState","version":5}')
+    finally:
+        del lpin.open
+        Platform.set(Platform.LEDGER)
+    mw.check_sim(w)
+    log = w.log[mark:]
+    new_pins = [e[1] for e in log if e[0] == "newpin_rx"]
+    file_after = read_file(pf)
+    dev_after = w.pin
+    adopted = dev_after != dev_before
+    where = "reconnection %r: reply %r, handler raised %s" % (c, out[:60], type(exc).__name__)
+    if not new_pins:
+        raise Violation("reconnect-no-change-attempt", where)
+    labels.append("change:" + c["reaction"])
+    for pnew in new_pins:
+        if not policy_ok(pnew):
+            raise Violation("generated-pin-violates-policy", "%s: %r" % (where, pnew))
+    if adopted and (file_after is None or file_after.strip() != dev_after):
+        raise Violation(KNOWN_SIG, "%s: device PIN %r, file %r" % (where, dev_after, file_after))
+    if file_after != file_before and (not adopted or file_after != dev_after):
+        raise Violation("file-changed-without-acknowledged-change", "%s: %r -> %r" % (
+            where, file_before, file_after))
+    # (d) after the change attempt the manager stops: the request handler asks for a shutdown
+    from comm.server import RequestHandlerShutdown
+    if not isinstance(exc, RequestHandlerShutdown):
+        raise Violation("manager-carried-on-after-change-attempt",
+                        "%s: the PIN change attempt happened inside a request and the manager "
+                        "did not stop" % where)
+    nxt = file_after.strip() if file_after is not None else DEFAULT
+    if nxt != dev_after:
+        raise Violation("pin-unrecoverable", "%s: next start would use %r, device has %r" % (
+            where, nxt, dev_after))
+    return Out(labels, True)
+
+
 # ---------------------------------------------------------------- PIN generator under a
 # harness-controlled random source (the policy must hold for EVERY outcome of the RNG)
 
@@ -330,7 +439,7 @@ def run_generator(c):
     return Out(labels, not policy_ok(first))
 
 
-REQUIRED_LABELS = {t: ["gen:first-block-rejected", "gen:first-block-valid", "platform:Ledger", "platform:SGX", "file0:present", "file0:absent",
+REQUIRED_LABELS = {t: ["reconnect", "gen:first-block-rejected", "gen:first-block-valid", "platform:Ledger", "platform:SGX", "file0:present", "file0:absent",
                        "file0:invalid", "out:serve", "out:interrupt", "out:crash",
                        "out:pinerror", "change:accept", "change:refuse", "change:swerr",
                        "change:comm", "change:timeout", "known-finding-hit"]
@@ -343,5 +452,8 @@ def stages(tier):
                       budget_s={"quick": 60, "thorough": 120}),
             HypStage("histories", lambda t: cases(t), run_case, {"quick": 150, "thorough": 4000},
                      budget_s={"quick": 90, "thorough": 900}),
+            EnumStage("reconnect", reconnect_cases, run_reconnect,
+                      exhaustive={"quick": True, "thorough": True},
+                      budget_s={"quick": 60, "thorough": 120}),
             HypStage("pin-generator", lambda t: rng_streams(t), run_generator,
                      {"quick": 200, "thorough": 5000}, budget_s={"quick": 30, "thorough": 300})]
